@@ -1,9 +1,75 @@
 import ALV.Common.Json
+import ALV.Model.C14
+import ALV.Spec.C14
 namespace ALV.Driver.C14
-open ALV ALV.J
+open ALV ALV.J ALV.C14
 
-/-- stub: the C14 slice is not built yet -/
-def handle (entry : String) (_j : Json) : Except String Json :=
-  throw s!"C14: unknown entry {entry}"
+/-- Python does not produce `inf`/`nan` where IEEE arithmetic does: `0.0 ** negative` and `x / 0.0`
+    (C: `inf`) raise `ZeroDivisionError`; an invalid operation (C: `nan`) is either `0.0 / 0.0`
+    (`ZeroDivisionError`) or `negative ** non-integer`, which Python 3 turns into a *complex* number.
+    A non-finite sample of the `Float` twin is reported as that class of outcome. -/
+def outcomeToJson : Outcome Float → Json
+  | .err k => Json.mkObj [("err", Json.str k)]
+  | .ok xs =>
+    match xs.find? (fun x => x.isNaN || x.isInf) with
+    | some x => Json.mkObj [("err", Json.str (if x.isNaN then "NaN" else "ZeroDivisionError"))]
+    | none => Json.mkObj [("ok", arr floatToJson xs)]
+
+def funcToJson (f : Func) : Json := Json.arr [Json.str f.sname, Json.bool f.symm]
+
+def sdictToJson (d : SDict) : Json :=
+  Json.mkObj [("items", arr (fun kv => Json.arr [Json.str kv.1, funcToJson kv.2]) d.items),
+              ("default", optJson funcToJson d.default)]
+
+def getDict (j : Json) : Except String DictId := do
+  match ← getStr (← field j "dict") with
+  | "window" => pure .window
+  | "wsymm" => pure .wsymm
+  | s => throw s!"C14: unknown dict {s}"
+
+def handle (entry : String) (j : Json) : Except String Json := do
+  match entry with
+  | "call" =>
+    -- {"dict": "window"|"wsymm", "name": str|null, "size": int, "alpha": number|null}
+    let d ← getDict j
+    let name ← (optField j "name").mapM getStr
+    let size ← getInt (← field j "size")
+    let alpha ← (optField j "alpha").mapM getFloat
+    let model := call (α := Float) d name size alpha
+    -- the model's own resolution of the name (for the report) and the spec's
+    let sd := generated.dict d
+    let fn := match name with | some k => sd.get k | none => sd.default
+    let key := name.getD "hann"             -- documented default strategy of both dictionaries
+    let spec : Json :=
+      if size < 0 then Json.null else
+      match resolve (d == .wsymm) key with
+      | none => Json.null
+      | some (k, symm) =>
+        match specList (α := Float) k symm alpha size.toNat with
+        | none => Json.null
+        | some xs =>
+          -- an infinite closed form (cos with alpha < 0) is outside the property; a NaN sample (the Float
+          -- evaluation of `sin(≈π) ** alpha` with a slightly negative sine) is sent as "nan" and skipped
+          if xs.any (fun x => x.isInf) then Json.null
+          else Json.mkObj [
+            ("ok", arr floatToJson xs),
+            ("kind", Json.str k.sname), ("symm", Json.bool symm),
+            ("alpha", optJson floatToJson (alpha <|> (k.alphaDefault : Option Float))),
+            ("cola2", optJson floatToJson (colaConst k ((alpha <|> (k.alphaDefault : Option Float)).getD 0) 2)),
+            ("cola4", optJson floatToJson (colaConst k ((alpha <|> (k.alphaDefault : Option Float)).getD 0) 4))]
+    pure <| Json.mkObj [("model", outcomeToJson model), ("func", optJson funcToJson fn), ("spec", spec)]
+  | "registry" =>
+    -- the modelled state after `_generate_window_strategies()`
+    let st := generated
+    let links (l : List (Func × Func)) := arr (fun kv => Json.arr [funcToJson kv.1, funcToJson kv.2]) l
+    pure <| Json.mkObj [
+      ("window", sdictToJson st.window), ("wsymm", sdictToJson st.wsymm),
+      ("periodic", links st.periodicAttr), ("symm", links st.symmAttr),
+      ("spec", Json.mkObj [
+        ("window", arr (fun k => Json.arr [Json.str k, optJson (fun (r : Kind × Bool) => Json.arr [Json.str r.1.sname, Json.bool r.2]) (resolve false k)])
+                    (Kind.all.flatMap Kind.names)),
+        ("wsymm", arr (fun k => Json.arr [Json.str k, optJson (fun (r : Kind × Bool) => Json.arr [Json.str r.1.sname, Json.bool r.2]) (resolve true k)])
+                    (Kind.all.flatMap Kind.names))])]
+  | _ => throw s!"C14: unknown entry {entry}"
 
 end ALV.Driver.C14
